@@ -234,7 +234,7 @@ def segment(obs, j_mark):
 
 def is_det(case):
     for m in case["models"]:
-        if m.get("streams") or m.get("lst") or m.get("subs"):
+        if m.get("streams") or m.get("lst") or m.get("subs") or m.get("pre"):
             return False
         for body in m["prog"]:
             for a in body:
@@ -626,6 +626,8 @@ def y_repr(case, obs):
         return why
     if case.get("stop_at"):
         return "stop_at"
+    if any(m.get("pre") for m in case["models"]):
+        return "pre-built events"
     if not isinstance(obs.get("reported"), (list, type(None))):
         return "reported"
     for m in case["models"]:
